@@ -24,9 +24,11 @@ touches it.  Whether the resulting links are consistent is a *theorem* (`Props/C
 | `moveCtor` | `object(object&&)` with `move_children` / `move_clear` |
 | `copyT`, `copyL` | `object(object const&)` with `copy_children` |
 | `reparent` | the `for (auto &child : result) child.parent_ = this;` loops |
-| `step` | `operator=` (both), `release`, `pop_back`, `pop_front`, `push_*`, `insert` (value and tree), `erase` (both), `clear`, `swap`, `sort`, destructor |
-| `preOrder` | `pre_order::iterator::increment` (explicit stack) |
-| `toRoot`, `level` | `to_root::iterator::increment`, `level.hpp` |
+| `step` | `operator=` (both), `release`, `pop_back`, `pop_front`, `push_*`, `insert` (value and tree), `erase` (both), `clear`, `swap`, `sort` (both), `object(T&&, child_list&&)`, destructor |
+| `front`, `back`, `fwd`, `rev`, `sizeK`, `emptyK` | `front()`, `back()`, `begin()/end()`, `rbegin()/rend()`, `size()`, `empty()` |
+| `printT`, `render`, `output` | `detail/print.hpp`, `output.hpp` |
+| `preLoop`, `pushRest`, `preNodes`, `preOrder` | `pre_order::iterator::increment` (explicit stack), `make_pre_order` |
+| `toRootLoop`, `toRootNodes`, `toRoot`, `level` | `to_root::iterator::increment`, `make_to_root`, `level.hpp` |
 | `depth` | `depth.hpp` (`fold` with `std::max`) |
 | `childPosition` | `child_position.hpp` (`find_if_opt` comparing addresses) |
 | `mapT` | `map.hpp` with `object(T&&, child_list&&)` |
@@ -129,6 +131,10 @@ def sizeL (ks : List PT) : Nat := (ks.map PT.size).sum
 /-- `std::list::sort` with `_left.value() < _right.value()`: stable, list nodes are relinked (addresses kept) -/
 def sortKids (ks : List PT) : List PT := ks.mergeSort (fun x y => decide (x.val ≤ y.val))
 
+/-- `sort(Predicate)`: `std::list::sort` with `_predicate(_left.value(), _right.value())`; a stable sort keeps `x` in
+front of `y` unless `y < x` -/
+def sortKidsBy (lt : Int → Int → Bool) (ks : List PT) : List PT := ks.mergeSort (fun x y => !lt y.val x.val)
+
 structure St where
   forest : List PT       -- the heap-allocated roots
   next : Nat             -- next unused address
@@ -228,24 +234,42 @@ def step (s : St) : Op → Except Fault St
       let F2 := putF (tb1.setKids []) b F1                -- move_clear(other.children_)
       let ta2 ← nodeAt F2 a
       .ok ⟨putF (ta2.setKids (reparent ta2.id tb1.kids)) a F2, s.next⟩
+  | .sortBy a k => do
+      let t ← nodeAt s.forest a
+      .ok ⟨putF (t.setKids (sortKidsBy (predOf k) t.kids)) a s.forest, s.next⟩
+  | .mkFrom b v => do
+      -- child_list l(b.children()): element-wise copy construction (every copy has parent_ == nullptr);
+      -- object(T&&, child_list&&) at the next address: move_children takes the list nodes over and re-parents them
+      let t ← nodeAt s.forest b
+      let l := copyLp s.next none t.kids
+      let self := s.next + sizeL t.kids
+      .ok ⟨s.forest ++ [.node self v none (reparent self l)], self + 1⟩
 
 /-! ## Observers -/
 
-/-- `pre_order::iterator`: `cur` = `current_`, `st` = `positions_` (top first).  One call = dereference + increment. -/
-def preLoop : Nat → PT → List PT → List Int → Except Fault (List Int)
+/-- the loop `for (element : make_range(rbegin(), prev(rend()))) positions_.push(element)`: every child but the first is
+pushed, the last child first, so the second child ends on top -/
+def pushRest (kids : List PT) (st : List PT) : List PT := (kids.reverse.dropLast).foldl (fun s e => e :: s) st
+
+/-- `pre_order::iterator`: `cur` = `current_`, `st` = `positions_` (top first).  One call = dereference + increment.
+The result is the sequence of *objects* the iterator refers to. -/
+def preLoop : Nat → PT → List PT → List PT → Except Fault (List PT)
   | 0, _, _, _ => .error .fuel
   | f + 1, cur, st, acc =>
-    let acc := acc ++ [cur.val]
+    let acc := acc ++ [cur]
     match cur.kids with
     | c :: rest =>
-      -- children from rbegin() to prev(rend()) are pushed: the second child ends on top
-      preLoop f c (rest ++ st) acc
+      -- `!cur_deref.empty()`: push the other children, `current_ = cur_deref.front()`
+      preLoop f c (pushRest (c :: rest) st) acc
     | [] =>
       match st with
       | [] => .ok acc
       | t :: st' => preLoop f t st' acc
 
-def preOrder (t : PT) : Except Fault (List Int) := preLoop t.size t [] []
+/-- the objects visited by `pre_order` (also what `make_pre_order` yields: it only calls the constructor) -/
+def preNodes (t : PT) : Except Fault (List PT) := preLoop t.size t [] []
+
+def preOrder (t : PT) : Except Fault (List Int) := (preNodes t).map (fun l => l.map PT.val)
 
 def findT (i : Nat) : PT → Option PT
   | .node j v p ks => if i = j then some (.node j v p ks) else (ks.map (findT i)).findSome? (fun x => x)
@@ -253,11 +277,12 @@ def findT (i : Nat) : PT → Option PT
 /-- dereference an address: the live object with that id -/
 def findF (i : Nat) (F : List PT) : Option PT := (F.map (findT i)).findSome? (fun x => x)
 
-/-- `to_root::iterator`: dereference, then `current_ = parent()`; a parent link to a dead object is `oob` -/
-def toRootLoop (F : List PT) : Nat → PT → List Int → Except Fault (List Int)
+/-- `to_root::iterator`: dereference, then `current_ = parent()`; a parent link to a dead object is `oob`.
+The result is the sequence of objects the iterator refers to. -/
+def toRootLoop (F : List PT) : Nat → PT → List PT → Except Fault (List PT)
   | 0, _, _ => .error .fuel
   | f + 1, cur, acc =>
-    let acc := acc ++ [cur.val]
+    let acc := acc ++ [cur]
     match cur.parent with
     | none => .ok acc
     | some p =>
@@ -265,7 +290,10 @@ def toRootLoop (F : List PT) : Nat → PT → List Int → Except Fault (List In
       | some n => toRootLoop F f n acc
       | none => .error .oob
 
-def toRoot (F : List PT) (t : PT) : Except Fault (List Int) := toRootLoop F (sizeL F + 1) t []
+/-- the objects visited by `to_root` (and by `make_to_root`) -/
+def toRootNodes (F : List PT) (t : PT) : Except Fault (List PT) := toRootLoop F (sizeL F + 1) t []
+
+def toRoot (F : List PT) (t : PT) : Except Fault (List Int) := (toRootNodes F t).map (fun l => l.map PT.val)
 
 /-- `level.hpp`: `size(to_root(tree)) - 1` -/
 def level (F : List PT) (t : PT) : Except Fault Nat := (toRoot F t).map (fun l => l.length - 1)
@@ -297,6 +325,30 @@ def eqL : List PT → List PT → Bool
   | k :: ks, l :: ls => eqT k l && eqL ks ls
   | _, _ => false
 end
+
+/-! ## the child list seen through the member functions -/
+
+/-- `front()`: `maybe_front(children_)` -/
+def front (t : PT) : Option PT := t.kids.head?
+/-- `back()`: `maybe_back(children_)` -/
+def back (t : PT) : Option PT := t.kids.getLast?
+/-- `begin() … end()` -/
+def fwd (t : PT) : List PT := t.kids
+/-- `rbegin() … rend()` -/
+def rev (t : PT) : List PT := t.kids.reverse
+def sizeK (t : PT) : Nat := t.kids.length
+def emptyK (t : PT) : Bool := t.kids.isEmpty
+
+/-- `detail::print`: `_indent` tabs, the value, a newline, then every child with `_indent + 1`; as `(indentation, value)` lines -/
+def printT (d : Nat) : PT → List (Nat × Int)
+  | .node _ v _ ks => (d, v) :: (ks.map (printT (d + 1))).flatten
+
+/-- the characters written to the stream for one line / for the whole output (`tab` = `widen('\t')`, `nl` = `widen('\n')`) -/
+def renderLine (tab nl : Char) (l : Nat × Int) : List Char := List.replicate l.1 tab ++ (toString l.2).toList ++ [nl]
+def render (tab nl : Char) (ls : List (Nat × Int)) : List Char := (ls.map (renderLine tab nl)).flatten
+
+/-- `operator<<` -/
+def output (tab nl : Char) (t : PT) : List Char := render tab nl (printT 0 t)
 
 /-- is every parent link below (and at) `t` what the owner expects?  `exp` = expected `parent_` of `t` -/
 def PT.flagOk (exp : Option Nat) (t : PT) : Bool := t.parent == exp
